@@ -19,13 +19,14 @@ CLS = {
     "Kenamond1": "exactpack.solvers.kenamond.kenamond1.Kenamond1", "Kenamond2": "exactpack.solvers.kenamond.kenamond2.Kenamond2",
     "Kenamond3": "exactpack.solvers.kenamond.kenamond3.Kenamond3", "DSDcyl": "exactpack.solvers.dsd.cylexpansion.CylindricalExpansion",
     "Blake": "exactpack.solvers.blake.blake.Blake", "Rod1D": "exactpack.solvers.heat.rod1d.Rod1D",
-    "Hutchens1": "exactpack.solvers.heat.hutchens1.Hutchens1",
+    "Hutchens1": "exactpack.solvers.heat.hutchens1.Hutchens1", "RodNH": "exactpack.solvers.heat.rod1d.Rod1D",
     "RiemannIG": "exactpack.solvers.riemann.ep_riemann.IGEOS_Solver", "RiemannGen": "exactpack.solvers.riemann.ep_riemann.GenEOS_Solver",
 }
 for _n in [1, 2, 3, 4, 5, 6, 7, 8, 9, 10, 11, 12, 13, 14, 16, 17, 18, 19, 20, 21]:
     CLS["Cog%d" % _n] = "exactpack.solvers.cog.cog%d.Cog%d" % (_n, _n)
 
-BC = {"BC1": (1, 0, 1, 0), "BC2": (0, 1, 0, 1), "BC3": (1, 0, 0, 1), "BC4": (0, 1, 1, 0)}
+BC = {"BC1": (1, 0, 1, 0), "BC2": (0, 1, 0, 1), "BC3": (1, 0, 0, 1), "BC4": (0, 1, 1, 0),
+      "RobinA": (1.0, -0.5, 1.0, 0.5), "RobinB": (2.0, -1.0, 1.0, 1.0)}
 POSITION = ("position", "position_x", "position_y", "position_z", "radius", "position_r", "position_relative")
 
 
@@ -58,9 +59,11 @@ def kwargs(state):
     g = state.get("geometry")
     if fam in ("Kenamond1", "Kenamond3"):
         kw["x_d"] = tuple(kw["x_d"][:kw["geometry"]])
-    if fam == "Rod1D":
+    if fam in ("Rod1D", "RodNH"):
         a1, b1, a2, b2 = BC[kw.pop("bc")]
         kw.update(alpha1=a1, beta1=b1, alpha2=a2, beta2=b2)
+        if fam == "RodNH":
+            kw["gamma1"], kw["gamma2"] = kw.pop("g1"), kw.pop("g2")
     # documented dimensional defaults made explicit (so that a change of units can rescale them)
     if fam == "Kenamond2":
         sh = kw.pop("tshift", 0.0)
@@ -115,7 +118,7 @@ def request(fam, kw, t, n=5):
         return np.stack([r * np.cos(th), r * np.sin(th)], axis=1)
     if fam == "Blake":
         return lin(1.0, 6.0, n) * kw["cavity_radius"]
-    if fam == "Rod1D":
+    if fam in ("Rod1D", "RodNH"):
         return lin(0.08, 0.93, n) * kw["L"]
     if fam == "Hutchens1":
         return lin(0.1, 0.93, n) * kw["b"]
